@@ -1,5 +1,6 @@
 """Engine-H checks: common machinery (plan building, output parsing, crash classification, generic shrinking)."""
 import copy
+import os
 import json
 
 from . import config as cfg
@@ -45,6 +46,8 @@ class HistCheck(Check):
     def gen_case(self, seed, idx, tier):
         rng_p = sub_rng(seed, self.pid, idx, 'profile')
         prof = self.pick_profile(rng_p)
+        if os.environ.get('VERIF_PROFILES'):   # maintenance: focus a run on some logics (never set by a registered command)
+            prof = rng_p.choice(os.environ['VERIF_PROFILES'].split(','))
         opts, knobs, unusual, tags = cfg.gen_config(sub_rng(seed, self.pid, idx, 'config'), need=self.need, forbid=self.forbid,
                                                     allow_engines=self.allow_engines, allow_nonincremental=self.allow_nonincremental,
                                                     perturb=self.perturb)
